@@ -130,6 +130,14 @@ def evaluate_side(mod, name, tau, fn=None, oracle=None):
             return NotImplemented
         cparams, cret = SIG[cname]
         norm = []
+        # keyword arguments are put into their positional slots (f(x, chi=a) and f(x, a) are the same call)
+        names = [p for p, _s, _w in cparams]
+        cargs, ckw = list(cargs), dict(ckw)
+        for p in names[len(cargs):]:
+            if p in ckw:
+                cargs.append(ckw.pop(p))
+            else:
+                break
         for i, a in enumerate(cargs):
             w = cparams[i][2] if i < len(cparams) else 0
             norm.append(vkey(div_tau(a, w, tau)))
@@ -281,7 +289,7 @@ def compare_outcomes(name, tau, tout, tcalls, lout, lcalls):
     return res
 
 
-HKL_FAMILY = ("sysabs", "sysabs_unique", "genhkl_base", "genhkl", "genhkl_all", "genhkl_unique")
+HKL_FAMILY = ("sysabs", "sysabs_unique", "genhkl_base", "genhkl", "genhkl_all", "genhkl_unique", "reduce_cell")
 
 
 def compare_hkl(name, tmod, lmod):
@@ -333,6 +341,34 @@ def compare_hkl(name, tmod, lmod):
             if vt[c]["signature"] != vl[c]["signature"] or vt[c]["syscond_ok"] != vl[c]["syscond_ok"]:
                 differ.append((c[0], c[1]))
         out.append(("result", not differ, "evaluated on the same band models the two walks return different rows / sort keys for (Laue, cell choice) %s" % (differ[:3],)))
+        return out
+    if name == "reduce_cell":
+        # both copies evaluated by C18's abstract evaluator (concrete candidate table, sorted-table and first-hit summaries)
+        from props.c18 import ReduceEval, RoundingFilter
+        sig = []
+        for mod_ in (tmod, lmod):
+            fn_ = mod_.func("reduce_cell")
+            cell_ = sym_array(fn_.args.args[0].arg, (6,))
+            ev_ = ReduceEval(mod_, cell_)
+            try:
+                ev_.call_function("reduce_cell", [cell_])
+            except RoundingFilter as rf_:
+                sig.append(("rounding-filter", core.unparse(rf_.node)))
+                continue
+            if ev_.table is None or ev_.handed is None:
+                raise AnalysisError("%s.reduce_cell: no sorted candidate table / no call of a_to_cell was met" % mod_.rel)
+            rows_ = sorted("|".join(x_.key() for x_ in r_) + "@" + k_.key() for r_, k_ in zip(ev_.table.source, ev_.table.keys))
+            sig.append((rows_, [[x_.key() for x_ in r_] for r_ in ev_.handed],
+                        [(g_[0], g_[1].key(), g_[2], str(g_[3])) for g_ in ev_.guards],
+                        [(l_["broke"], bool(l_["trace"]), l_["start"].key() if hasattr(l_["start"], "key") else str(l_["start"])) for l_ in ev_.loops]))
+        # (an index table [i,j,k,|v|] and a vector table sorted by a separate key differ in representation only: compare the
+        #  multiset of sort keys and what reaches a_to_cell)
+        def reduced(s_):
+            if s_[0] == "rounding-filter":
+                return s_
+            return (sorted(r_.split("@")[1] for r_ in s_[0]), s_[1], s_[2], s_[3])
+        out.append(("result", reduced(sig[0]) == reduced(sig[1]),
+                    "evaluated on the same symbolic cell the two copies of reduce_cell differ in their candidate lengths, guards, searches or in the matrix handed to a_to_cell"))
         return out
     if name == "genhkl":
         # the superseded triclinic walk: both copies evaluated as a whole on the same band models (props/hklrun.py)
